@@ -1,7 +1,7 @@
 #!/usr/bin/env python3
 """Build the sanitised gdstk objects + driver from the *current working tree* of the repo.
 
-Usage: build.py [--repo /repo] [--target driver|fuzz_oasis_numbers|fuzz_containers|all]
+Usage: build.py [--repo /repo] [--target gdstk_driver|gdstk_driver_gcc|all]
 Prints the build directory (/verif/build/<treehash>) on the last line of stdout.
 
 The cache key is a content hash of <repo>/src, <repo>/include, <repo>/external/clipper and of
@@ -171,7 +171,7 @@ def main():
             repo = args.pop(0)
         elif a == "--target":
             t = args.pop(0)
-            targets = ["gdstk_driver", "fuzz_oasis_numbers", "fuzz_containers"] if t == "all" else [t]
+            targets = ["gdstk_driver", "gdstk_driver_gcc"] if t == "all" else [t]
     print(build(os.path.abspath(repo), targets))
 
 
